@@ -16,6 +16,14 @@ CHECKS = {
    text="Proof: seq.Seq[F_,A] is given one abstract contract (element list elems(s), representation invariant wf(s)); every method of list.Trait and slice.Trait is verified against it (behavioural subtyping) and Foldable.Fold against the left fold from Empty() using only the interface contract, with loop invariants and decreases; list lemmas used are re-proved by induction (cvc5 --quant-ind) on every run. Persistence is a side condition of the memory models: a store into an ADT cell or an append/store to a non-fresh slice fails a model: obligation.",
    note="Trusted: as C20; linked-list cells are modelled as an algebraic datatype and slices as mathematical sequences (side conditions checked syntactically on every run); integer overflow of the length field is not checked (would need 2^63 elements).",
    tech="contract-based deductive verification: ADT/sequence memory abstractions with checked side conditions, interface refinement, inductive lemma library", ref="6/C19"),
+ "C14": dict(
+   text="Proof: seq.Seq[T] carries abstract state view (list from the current element on) and done; every iterator type (element, seqOf, takeWhile, filter, fmap, plus, join) is verified against the Value/Next contract through a model clause and an object invariant (behavioural subtyping, promoted methods included); every constructor is verified to return an iterator whose list is the list function (takew, dropw, filter, map, ++, flatmap) of its arguments' lists, nil iff empty; ForEach against a ghost call trace (visits in order, stops with the first error). Loops carry invariants and decreases clauses. Since each combinator is proved against the interface contract only, trees of any depth are covered. Source slices: only re-slicing is within the sequence model, any store fails a model: obligation.",
+   note="Trusted: as C20; iterators handed to a constructor are owned by it afterwards (tree-shaped expressions, no sharing); flat-map functions return fresh unshared iterators or nil with a deterministic list (rhsview); frame conditions (a method changes only its own object and its children) are assumed, not checked.",
+   tech="contract-based deductive verification: interface abstract state, model clauses, object invariants, loop invariants over recursive list spec functions", ref="6/C14"),
+ "C15": dict(
+   text="Proof: as C14 with abstract state kv, the list of (key, value) pairs; Key() and Value() are fst/snd of the same head; predicates and join functions are applied to (fst, snd) in that order; Map is verified against mapv (values changed, keys kept); ToSeq/FromSeq against flat-maps between pair lists and plain lists using the trait/seq interface contract.",
+   note="Trusted: as C14.",
+   tech="contract-based deductive verification: interface abstract state, model clauses, object invariants, loop invariants over recursive list spec functions", ref="6/C15"),
 }
 
 NA_REASON = "check not built yet in this session (engine under construction; build order in DESIGN.md section 12)"
